@@ -23,7 +23,40 @@ import (
 func c05F1(a int) int { return -1 - a }
 
 //go:noinline
-func c05F2(a int) (int, int) { return -1 - a, -1 - a + 1000 }
+func c05F2(a int) (int, int) { return -1 - a, -1 }
+
+// variadic targets with 0, 1 and 2 leading fixed parameters, and a variadic method
+
+//go:noinline
+func c05V0(nums ...int) int { return -1 - len(nums) }
+
+//go:noinline
+func c05V1(base int, nums ...int) int { return -1 - base - len(nums) }
+
+//go:noinline
+func c05V2(a, b int, nums ...int) int { return -1 - a - b - len(nums) }
+
+//go:noinline
+func (t *c05T) V(base int, nums ...int) int { return -1 - base - len(nums) - t.pad }
+
+// c05Args decodes an argument-list token: decimal digits, each digit d>0 is the argument d-1 ("24" = (1, 3), "0" = ()).
+func c05Args(tok int) []int {
+	var out []int
+	for _, ch := range strconv.Itoa(tok) {
+		if ch != '0' {
+			out = append(out, int(ch-'1'))
+		}
+	}
+	return out
+}
+
+func c05Ifs(xs []int) []interface{} {
+	out := make([]interface{}, len(xs))
+	for i, x := range xs {
+		out[i] = x
+	}
+	return out
+}
 
 type c05T struct{ pad int }
 
@@ -37,23 +70,52 @@ type c05Target struct {
 	mocker func(b *Builder) ExportedMocker
 	call   func(a int) (int, bool) // value, pair-consistent
 	pair   bool
+	fixed  int // variadic targets: number of leading fixed parameters; -1 = not variadic
+}
+
+func c05Variadic(fixed int, mk func(b *Builder) ExportedMocker, f func(xs []int) int) *c05Target {
+	return &c05Target{fixed: fixed, mocker: mk, call: func(a int) (int, bool) {
+		xs := c05Args(a)
+		if len(xs) < fixed {
+			return -1, true
+		}
+		return f(xs), true
+	}}
 }
 
 func c05NewTarget(kind string) *c05Target {
 	switch kind {
+	case "v0":
+		return c05Variadic(0, func(b *Builder) ExportedMocker { return b.Func(c05V0) }, func(xs []int) int { return c05V0(xs...) })
+	case "v1":
+		return c05Variadic(1, func(b *Builder) ExportedMocker { return b.Func(c05V1) }, func(xs []int) int { return c05V1(xs[0], xs[1:]...) })
+	case "v2":
+		return c05Variadic(2, func(b *Builder) ExportedMocker { return b.Func(c05V2) }, func(xs []int) int { return c05V2(xs[0], xs[1], xs[2:]...) })
+	case "vm":
+		obj := &c05T{}
+		return c05Variadic(1, func(b *Builder) ExportedMocker { return b.Struct(&c05T{}).Method("V") },
+			func(xs []int) int { return obj.V(xs[0], xs[1:]...) })
 	case "f1":
-		return &c05Target{mocker: func(b *Builder) ExportedMocker { return b.Func(c05F1) },
+		return &c05Target{fixed: -1, mocker: func(b *Builder) ExportedMocker { return b.Func(c05F1) },
 			call: func(a int) (int, bool) { return c05F1(a), true }}
 	case "f2":
-		return &c05Target{pair: true, mocker: func(b *Builder) ExportedMocker { return b.Func(c05F2) },
-			call: func(a int) (int, bool) { x, y := c05F2(a); return x, y == x+1000 }}
+		// a result token t is configured as the tuple (t%50, t): the second component carries the whole token, the first
+		// repeats between different tokens
+		return &c05Target{fixed: -1, pair: true, mocker: func(b *Builder) ExportedMocker { return b.Func(c05F2) },
+			call: func(a int) (int, bool) {
+				x, y := c05F2(a)
+				if y < 0 {
+					return y, true
+				}
+				return y, x == y%50
+			}}
 	case "me":
 		obj := &c05T{}
-		return &c05Target{mocker: func(b *Builder) ExportedMocker { return b.Struct(&c05T{}).Method("M") },
+		return &c05Target{fixed: -1, mocker: func(b *Builder) ExportedMocker { return b.Struct(&c05T{}).Method("M") },
 			call: func(a int) (int, bool) { return obj.M(a), true }}
 	case "if":
 		var i c05I
-		return &c05Target{mocker: func(b *Builder) ExportedMocker {
+		return &c05Target{fixed: -1, mocker: func(b *Builder) ExportedMocker {
 			return b.Interface(&i).Method("M").As(func(ctx *IContext, a int) int { return 0 })
 		}, call: func(a int) (int, bool) {
 			if i == nil {
@@ -67,7 +129,7 @@ func c05NewTarget(kind string) *c05Target {
 
 func c05Val(t *c05Target, v int) []interface{} {
 	if t.pair {
-		return []interface{}{v, v + 1000}
+		return []interface{}{v % 50, v}
 	}
 	return []interface{}{v}
 }
@@ -80,7 +142,7 @@ func c05Vals(t *c05Target, s string) []interface{} {
 	for _, p := range strings.Split(s, ",") {
 		v, _ := strconv.Atoi(p)
 		if t.pair {
-			out = append(out, []interface{}{v, v + 1000})
+			out = append(out, []interface{}{v % 50, v})
 		} else {
 			out = append(out, v)
 		}
@@ -88,7 +150,11 @@ func c05Vals(t *c05Target, s string) []interface{} {
 	return out
 }
 
-func c05Cond(s string) (kind byte, vals []interface{}) {
+func c05Cond(t *c05Target, s string) (kind byte, vals []interface{}) {
+	if t.fixed >= 0 && s[0] == 'e' {
+		v, _ := strconv.Atoi(s[1:])
+		return 'e', c05Ifs(c05Args(v))
+	}
 	if s == "y" {
 		return 'y', []interface{}{arg.Any()}
 	}
@@ -204,7 +270,7 @@ func c05Seq(kind string, ops []string) (res string) {
 			v, _ := strconv.Atoi(a)
 			w = t.mocker(b).Return(c05Val(t, v)...)
 		case "mW":
-			_, vals := c05Cond(a)
+			_, vals := c05Cond(t, a)
 			w = t.mocker(b).When(vals...)
 		case "mS":
 			w = t.mocker(b).Returns(c05Vals(t, a)...)
@@ -231,14 +297,16 @@ func c05Seq(kind string, ops []string) (res string) {
 					x, _ := strconv.Atoi(kv[0])
 					v, _ := strconv.Atoi(kv[1])
 					if t.pair {
-						pairs = append(pairs, arg.Pair{Args: x, Return: []interface{}{v, v + 1000}})
+						pairs = append(pairs, arg.Pair{Args: x, Return: []interface{}{v % 50, v}})
+					} else if t.fixed >= 0 {
+						pairs = append(pairs, arg.Pair{Args: c05Ifs(c05Args(x)), Return: v})
 					} else {
 						pairs = append(pairs, arg.Pair{Args: x, Return: v})
 					}
 				}
 				w.Matches(pairs...)
 			case "wW":
-				ck, vals := c05Cond(a)
+				ck, vals := c05Cond(t, a)
 				if ck == 'i' {
 					w.In(vals...)
 				} else {
@@ -311,9 +379,11 @@ type c05Rec struct {
 }
 
 // c05Conc: `c05.conc <target> <mode> <n> <G> <K>`; mode d = one default sequence 0..n-1 consumed by all G goroutines,
+// mode r = the same with every value configured twice in a row (0,0,1,1,…; values are then not positions),
 // mode c = two conditions When(7)/When(8) with sequences 0..n-1 and 100000..100000+n-1, even goroutines call 7, odd call 8
 // (plus a default that must never be served).  Every goroutine spins on a barrier, then performs K calls, stamping a
-// global atomic clock before and after each call.  Output: per stub the visible events in stamp order.
+// global atomic clock before and after each call.  Output: per stub `n<number of results the stub holds>` and the visible
+// events in stamp order.
 func c05Conc(kind, mode string, n, G, K int) (res string) {
 	t := c05NewTarget(kind)
 	if t == nil || t.pair {
@@ -326,24 +396,51 @@ func c05Conc(kind, mode string, n, G, K int) (res string) {
 			res = "config-panic:" + vh.Class(fmt.Sprint(r))
 		}
 	}()
+	div := 1
+	if mode == "r" {
+		div = 2 // every value twice in a row: 0,0,1,1,2,2,…
+	}
 	seq := func(base int) []interface{} {
 		var vs []interface{}
 		for i := 0; i < n; i++ {
-			vs = append(vs, base+i)
+			vs = append(vs, base+i/div)
 		}
 		return vs
 	}
 	groups := 1
+	argBase := 7 // non-variadic targets are called with 7 / 8
+	if t.fixed >= 0 {
+		argBase = 78 // variadic targets with the argument lists (6, 7) / (6, 8): two conditions of the same arity
+	}
+	condArgs := func(a int) []interface{} {
+		if t.fixed >= 0 {
+			return c05Ifs(c05Args(a))
+		}
+		return []interface{}{a}
+	}
+	var stubs []Matcher
 	switch mode {
-	case "d":
-		t.mocker(b).Returns(seq(0)...)
+	case "d", "r":
+		w := t.mocker(b).Returns(seq(0)...)
+		stubs = []Matcher{w.defaultReturns}
 	case "c":
 		groups = 2
 		w := t.mocker(b).Return(999999)
-		w.When(7).Returns(seq(0)...)
-		w.When(8).Returns(seq(100000)...)
+		w.When(condArgs(argBase)...).Returns(seq(0)...)
+		w.When(condArgs(argBase + 1)...).Returns(seq(100000)...)
+		if len(w.matches) != 2 {
+			return "config-panic:matches"
+		}
+		stubs = []Matcher{w.matches[0], w.matches[1]}
 	default:
 		return "bad-op"
+	}
+	lens := make([]string, len(stubs))
+	for i, m := range stubs {
+		lens[i] = "?"
+		if bm := c05Base(m); bm != nil {
+			lens[i] = strconv.Itoa(len(bm.results))
+		}
 	}
 	var clock int64
 	var ready int32
@@ -354,7 +451,7 @@ func c05Conc(kind, mode string, n, G, K int) (res string) {
 		wg.Add(1)
 		go func(g int) {
 			defer wg.Done()
-			a := 7 + g%groups
+			a := argBase + g%groups
 			my := make([]c05Rec, 0, K)
 			atomic.AddInt32(&ready, 1)
 			for atomic.LoadInt32(&ready) < int32(G) {
@@ -401,7 +498,7 @@ func c05Conc(kind, mode string, n, G, K int) (res string) {
 		for i, e := range evs {
 			toks[i] = e.tok
 		}
-		parts = append(parts, strings.Join(toks, " "))
+		parts = append(parts, "n"+lens[grp]+" "+strings.Join(toks, " "))
 	}
 	return strings.Join(parts, " ; ")
 }
